@@ -53,6 +53,26 @@ def cond_atoms(ctx, c, pol=True, subst=None):
                 return cond_atoms(ctx, c["l"], False, subst) + cond_atoms(ctx, c["r"], False, subst)
             alts = [cond_atoms(ctx, c["l"], True, subst), cond_atoms(ctx, c["r"], True, subst)]
             return [("or", alts)]
+        if op in ("==", "!="):
+            # tuple equality is the element-wise conjunction: `(&a, &b) == (&c, &d)` is `a == c && b == d`
+            l0, r0 = strip(c["l"]), strip(c["r"])
+            while l0.get("k") == "AddrOf":
+                l0 = strip(l0["e"])
+            while r0.get("k") == "AddrOf":
+                r0 = strip(r0["e"])
+            if l0.get("k") == "Tup" and r0.get("k") == "Tup" and len(l0.get("es", [])) == len(r0.get("es", [])) >= 1:
+                want_eq = (op == "==") == bool(pol)
+                parts = []
+                for x_, y_ in zip(l0["es"], r0["es"]):
+                    xa, ya = x_, y_
+                    while strip(xa).get("k") == "AddrOf":
+                        xa = strip(xa)["e"]
+                    while strip(ya).get("k") == "AddrOf":
+                        ya = strip(ya)["e"]
+                    parts.append(norm_cmp("==" if want_eq else "!=", ctx.term(xa, subst), ctx.term(ya, subst), overloaded=c.get("fn")))
+                if want_eq:
+                    return parts
+                return [("or", [[p_] for p_ in parts])]
         if op in NEG:
             a = ctx.term(c["l"], subst)
             b = ctx.term(c["r"], subst)
